@@ -73,6 +73,9 @@ Fixpoint merge_items (acc : bytes) (l : list ritem) : list ritem :=
   | e :: r => flush_items acc ++ e :: merge_items [] r
   end.
 
+(* a reading without error items *)
+Definition no_fail (l : list ritem) : Prop := Forall (fun i => match i with RFail _ => False | _ => True end) l.
+
 Section Pipeline.
   Variables H H' T T' : Type.
   (* C12 *)
